@@ -1915,9 +1915,13 @@ class RTCSctpTransport(AsyncIOEventEmitter):
                     protocol_length,
                 ) = unpack_from("!BBHLHH", data)
                 pos = 12
-                label = data[pos : pos + label_length].decode("utf8")
-                pos += label_length
-                protocol = data[pos : pos + protocol_length].decode("utf8")
+                try:
+                    label = data[pos : pos + label_length].decode("utf8")
+                    pos += label_length
+                    protocol = data[pos : pos + protocol_length].decode("utf8")
+                except UnicodeDecodeError:
+                    # the label or protocol is not valid UTF-8, ignore the request
+                    return
 
                 # check channel type
                 maxPacketLifeTime = None
@@ -1954,8 +1958,14 @@ class RTCSctpTransport(AsyncIOEventEmitter):
                 if channel is not None and channel.readyState == "connecting":
                     channel._setReadyState("open")
         elif pp_id == WEBRTC_STRING and stream_id in self._data_channels:
+            try:
+                text = data.decode("utf8")
+            except UnicodeDecodeError:
+                # a string message must be valid UTF-8, discard it
+                return
+
             # emit message
-            self._data_channels[stream_id].emit("message", data.decode("utf8"))
+            self._data_channels[stream_id].emit("message", text)
         elif pp_id == WEBRTC_STRING_EMPTY and stream_id in self._data_channels:
             # emit message
             self._data_channels[stream_id].emit("message", "")
